@@ -300,24 +300,16 @@ func init() {
 	}
 
 	// time
+	// time: a concrete, strictly increasing clock (one second per call). Harnesses that need symbolic time
+	// use their own clock stubs; code under test only uses these instants for stats and age thresholds.
 	intercepts["time.Now"] = func(it *Interp, fn *ssa.Function, args []Value) Value {
 		ts := it.ts
-		v := ts.Var(64, "now")
-		lo := ts.BV(63_000_000_000, 64)
-		if it.timeNow != nil {
-			lo = it.timeNow
-		}
-		it.assume(ts.ULe(lo, v))
-		it.assume(ts.ULe(v, ts.BV(64_000_000_000, 64)))
-		it.timeNow = v
-		loc := nilPtr()
-		return &StructV{f: []Value{ts.BV(0, 64), v, loc}}
+		it.clock++
+		sec := uint64(63_850_000_000) + uint64(it.clock)
+		return &StructV{f: []Value{ts.BV(0, 64), ts.BV(sec, 64), nilPtr()}}
 	}
 	intercepts["time.Since"] = func(it *Interp, fn *ssa.Function, args []Value) Value {
-		ts := it.ts
-		v := ts.Var(64, "since")
-		it.assume(ts.ULe(v, ts.BV(1<<50, 64)))
-		return v
+		return it.ts.BV(1_000_000, 64)
 	}
 	intercepts["crypto/rand.Read"] = func(it *Interp, fn *ssa.Function, args []Value) Value {
 		b := args[0].(*SliceV)
